@@ -510,7 +510,9 @@ class Unit:
         if deep:
             registry = copy.deepcopy(self.registry)
         else:
-            registry = copy.copy(self.registry)
+            # a shallow copy stays bound to the same registry: copy.copy would
+            # create a second registry object sharing this one's lut and cache
+            registry = self.registry
         return Unit(expr, base_value, base_offset, dimensions, registry)
 
     def __deepcopy__(self, memodict=None):
